@@ -297,8 +297,9 @@ def compare(outdir, max_report=20, nontrivial=None, distinct_key=None):
                 lm = fm.readline()
                 total += 1
                 cid, _, cbody = lc.rstrip("\n").partition(" ")
-                if nontrivial is None or nontrivial(cbody, li):
-                    dk = distinct_key(cbody, li) if distinct_key else cbody
+                ibody = li.rstrip("\n").partition(" ")[2]      # the result without its case id
+                if nontrivial is None or nontrivial(cbody, ibody):
+                    dk = distinct_key(cbody, ibody) if distinct_key else cbody
                     distinct.add(hashlib.blake2b(dk.encode(), digest_size=8).digest())
                 if len(samples) < 3 and (total % 9973 == 1 or total in (2, 3)):
                     samples.append({"case": cbody[:400], "result": li.rstrip("\n").partition(" ")[2][:400]})
